@@ -129,11 +129,22 @@ pub fn ext_program(ctx: &Ctx) -> Program {
     let n = ctx.pick("registrations", 4);
     let mut ops = Vec::new();
     for _ in 0..n {
-        let k = ctx.pick("registration", 6);
-        let (pf, url) = [("ext", "http://example.com/a"), ("ext", "http://example.com/b"), ("e2", "http://example.com/a"), ("e2", "urn:x:y"), ("e2", ""), ("ext", "")][k];
+        let k = ctx.pick("registration", 9);
+        let (pf, url) = [
+            ("ext", "http://example.com/a"),
+            ("ext", "http://example.com/b"),
+            ("e2", "http://example.com/a"),
+            ("e2", "urn:x:y"),
+            ("e2", ""),
+            ("ext", ""),
+            // namespace names that cannot be bound to an extension prefix
+            ("ext", e57spec::model::E57_NS),
+            ("e2", "http://www.w3.org/XML/1998/namespace"),
+            ("ext", "http://www.w3.org/2000/xmlns/"),
+        ][k];
         ops.push(Op::ExtTry(pf.into(), url.into()));
     }
-    let has_ext = ops.iter().any(|o| matches!(o, Op::ExtTry(p, u) if p == "ext" && !u.is_empty()));
+    let has_ext = ops.iter().any(|o| matches!(o, Op::ExtTry(p, u) if p == "ext" && crate::wprog::ext_url_ok(u)));
     let mut proto = crate::cat::xyz(crate::cat::F32);
     if has_ext {
         proto.push(crate::cat::ext_rec("ext", "attr", e57spec::model::Ty::Int { min: 0, max: 9 }));
